@@ -404,6 +404,41 @@ func NilTests(fn *ssa.Function, v ssa.Value) []NilTest {
 	return out
 }
 
+// NilTestsWhere finds the Ifs comparing a value accepted by match with nil.
+func NilTestsWhere(fn *ssa.Function, match func(v ssa.Value) bool) []NilTest {
+	var out []NilTest
+	for _, b := range fn.Blocks {
+		if len(b.Instrs) == 0 {
+			continue
+		}
+		iff, ok := b.Instrs[len(b.Instrs)-1].(*ssa.If)
+		if !ok {
+			continue
+		}
+		bo, ok := iff.Cond.(*ssa.BinOp)
+		if !ok || (bo.Op != token.EQL && bo.Op != token.NEQ) {
+			continue
+		}
+		var subj ssa.Value
+		if c, ok := bo.Y.(*ssa.Const); ok && c.IsNil() {
+			subj = bo.X
+		} else if c, ok := bo.X.(*ssa.Const); ok && c.IsNil() {
+			subj = bo.Y
+		}
+		if subj == nil || !match(subj) {
+			continue
+		}
+		nt := NilTest{If: iff}
+		if bo.Op == token.EQL {
+			nt.NilSucc, nt.NonNil = b.Succs[0], b.Succs[1]
+		} else {
+			nt.NilSucc, nt.NonNil = b.Succs[1], b.Succs[0]
+		}
+		out = append(out, nt)
+	}
+	return out
+}
+
 // BlockFailureEdges adds to blk, for every error-returning call in `checks`,
 // (a) the call instruction is NOT blocked, but (b) every successor edge taken
 // when its error is nil is blocked. A check call whose error is never tested
@@ -1086,19 +1121,85 @@ func DynCallsThrough(fn *ssa.Function, typ, field string) []ssa.Instruction {
 	return out
 }
 
-// IsRangeIndex reports whether v is the induction value of a `for i := range slice` loop
-// (the t+1 of the rangeindex phi).
+// IsRangeIndex reports whether v is the induction value of a loop that visits
+// 0, 1, 2, ... below a bound: the t+1 of the rangeindex phi of `for i := range
+// slice`, or the phi of an explicit `for i := 0; i < bound; i++` whose only
+// update is the increment.
 func IsRangeIndex(v ssa.Value) bool {
-	bo, ok := v.(*ssa.BinOp)
-	if !ok || bo.Op != token.ADD {
-		return false
+	switch x := v.(type) {
+	case *ssa.BinOp:
+		if x.Op != token.ADD {
+			return false
+		}
+		phi, ok := x.X.(*ssa.Phi)
+		if !ok || phi.Comment != "rangeindex" {
+			return false
+		}
+		n, ok := ConstInt(x.Y)
+		return ok && n == 1
+	case *ssa.Phi:
+		return countingPhiBound(x) != nil
 	}
-	phi, ok := bo.X.(*ssa.Phi)
-	if !ok || phi.Comment != "rangeindex" {
-		return false
+	return false
+}
+
+// countingPhiBound returns the bound B of `for i := 0; i < B; i++` for its phi, or nil.
+func countingPhiBound(phi *ssa.Phi) ssa.Value {
+	if len(phi.Edges) != 2 || phi.Comment == "rangeindex" {
+		return nil
 	}
-	n, ok := ConstInt(bo.Y)
-	return ok && n == 1
+	var init, step ssa.Value
+	for _, e := range phi.Edges {
+		if n, ok := ConstInt(e); ok && n == 0 && init == nil {
+			init = e
+		} else {
+			step = e
+		}
+	}
+	if init == nil || step == nil {
+		return nil
+	}
+	bo, ok := step.(*ssa.BinOp)
+	if !ok || bo.Op != token.ADD || bo.X != ssa.Value(phi) {
+		return nil
+	}
+	if n, ok := ConstInt(bo.Y); !ok || n != 1 {
+		return nil
+	}
+	b := phi.Block()
+	iff, ok := b.Instrs[len(b.Instrs)-1].(*ssa.If)
+	if !ok {
+		return nil
+	}
+	cmp, ok := iff.Cond.(*ssa.BinOp)
+	if !ok || cmp.Op != token.LSS || cmp.X != ssa.Value(phi) {
+		return nil
+	}
+	return cmp.Y
+}
+
+// LoopSliceOf: for an induction value (see IsRangeIndex) whose bound is len(S), returns S.
+func LoopSliceOf(idx ssa.Value) ssa.Value {
+	var bound ssa.Value
+	switch x := idx.(type) {
+	case *ssa.BinOp:
+		if !IsRangeIndex(x) {
+			return nil
+		}
+		for _, r := range *x.Referrers() {
+			if cmp, ok := r.(*ssa.BinOp); ok && cmp.Op == token.LSS && cmp.X == idx {
+				bound = cmp.Y
+			}
+		}
+	case *ssa.Phi:
+		bound = countingPhiBound(x)
+	}
+	if call, ok := bound.(*ssa.Call); ok {
+		if b, ok := call.Call.Value.(*ssa.Builtin); ok && b.Name() == "len" {
+			return call.Call.Args[0]
+		}
+	}
+	return nil
 }
 
 func indexString(v ssa.Value) string {
